@@ -121,6 +121,9 @@ pub fn policies(rng: &mut Rng, mask: u32) -> Policies {
 
 /// non-empty byte vector of a length class
 fn nonempty(rng: &mut Rng, cap: usize) -> Vec<u8> {
+    if cap == 0 {
+        return vec![rng.u8()];
+    }
     loop {
         let v = rng.bytes_len_class(cap);
         if !v.is_empty() {
